@@ -156,6 +156,55 @@ theorem C10_snapshot_transcript (s : St) (db : DB) (g : GDir) (hdb : s.db = some
       unfold fold
       exact List.mem_map.mpr ⟨(k, p), Index.get_eq_some_mem hg, by simp only [e1]⟩
 
+/-- **C10_snapshot_transcript_sharded**: the same for the sharded heap-merging iterator itself.
+    For every shard function, shard count and index type, the `DBIter` over the index positions,
+    whose `Value` reads the served position in the current (moving) database state, produces the
+    transcript of the abstract cursor over the creation-time mapping. -/
+theorem C10_snapshot_transcript_sharded (s : St) (db : DB) (g : GDir) (hdb : s.db = some db)
+    (hinv : Inv s db g) (shardOf : Key → Nat) (n : Nat) (typ : IndexType)
+    (hshard : ∀ x ∈ db.index, shardOf x.1 < n) (pre : Key) (rev : Bool) (evs : List Ev)
+    (hadm : (Abs.new rev pre db.index).admissible (callsOf evs) = true) :
+    transcriptD s (DBIter.new typ rev pre (shardsOf shardOf n db.index)) evs
+      = specTranscript (Abs.new rev pre (fold s db)) evs := by
+  rw [transcriptD_eq_of_trace evs s _ (iterNew db pre rev)
+    ((C10_engine_cursor db pre rev hinv.sorted _ hadm).2 shardOf n typ hshard).symm]
+  exact (C10_snapshot_transcript s db g hdb hinv pre rev evs hadm).1
+
+/-- **C10_engine_complete_sorted**: from any state of the engine iterator reached by an admissible
+    call sequence, `Rewind` followed by the loop `for ; Valid(); Next()` — with every `Value` read
+    after an arbitrary later history `hist` — yields exactly the creation-time pairs `(k, .val v)`
+    whose key has the prefix, each once, in iteration order (strictly ordered). -/
+theorem C10_engine_complete_sorted (s : St) (db : DB) (g : GDir) (hdb : s.db = some db) (hinv : Inv s db g)
+    (pre : Key) (rev : Bool) (calls : List Call)
+    (hadm : (Abs.new rev pre db.index).admissible calls = true) (fuel : Nat)
+    (hfuel : ((iterOrder rev db.index).filter (fun x => ShardIter.hasPrefix pre x.1)).length ≤ fuel)
+    (hist : List HOp) :
+    ∃ db', (hrun s hist).db = some db' ∧
+      (((iterNew db pre rev).run calls).rewind.collect fuel).map
+          (fun x => (x.1, x.2.map (valueAt (hrun s hist) db')))
+        = ((iterOrder rev (fold s db)).filter (fun x => ShardIter.hasPrefix pre x.1)).map
+            (fun x => (some x.1, some x.2)) ∧
+      ((iterOrder rev (fold s db)).filter (fun x => ShardIter.hasPrefix pre x.1)).Pairwise
+        (fun a b => before rev a.1 b.1 = true) := by
+  obtain ⟨db', hdb', _, hall⟩ := C10_stable s db g hdb hinv hist
+  have hfold : fold s db = db.index.map (fun x => (x.1, valueAt s db x.2)) := rfl
+  refine ⟨db', hdb', ?_, ?_⟩
+  · have hc := complete_engine ((sorted_of_pairwise hinv.sorted).iterOrder) (CSim.new db pre rev) calls hadm
+      fuel hfuel
+    rw [hc, hfold, iterOrder_map, filter_map_key (valueAt s db) (ShardIter.hasPrefix pre)]
+    simp only [List.map_map]
+    apply List.map_congr_left
+    intro x hx
+    have hx' : x ∈ db.index := mem_iterOrder.mp (List.mem_filter.mp hx).1
+    obtain ⟨v, _, e2, e3⟩ := hall x.1 x.2 hx'
+    simp only [Function.comp, Option.map_some, e2, e3]
+  · have hs : ShardIter.Sorted false (fold s db) := by
+      rw [hfold]
+      unfold ShardIter.Sorted
+      rw [List.pairwise_map]
+      exact sorted_of_pairwise hinv.sorted
+    exact (hs.iterOrder (rev := rev)).filter _
+
 /-! ## 3. non-vacuity -/
 
 /-- every `Seek` of the sequence is the first call or directly follows a `Rewind`
@@ -280,6 +329,21 @@ def nFiles (s : St) (dir : String) : Option (List Nat) := (s.world.get dir).map 
           (fun o => (o.valid, o.key.map String.fromUTF8!, o.value.map (·.off)))
   | none => false)
 
+-- the sharded iterator's own interleaved transcript (values read in the moving database)
+#guard (match exS.db with
+  | some db => (transcriptD exS (DBIter.new .skiplist true (kb "a") (shardsOf C10.exShard 4 db.index)) exEvs).map showObs
+  | none => []) == exSpec "a" true
+#guard (match exS.db with
+  | some db => (transcriptD exS (DBIter.new .hashmap false (kb "") (shardsOf C10.exShard 4 db.index)) exEvs).map showObs
+  | none => []) == exSpec "" false
+-- `Rewind` + the `Valid/Next` loop after `Next; Next`, every value read after the whole history
+#guard (match exS.db, (hrun exS exHist).db with
+  | some db, some db' =>
+    ((((iterNew db (kb "") false).run [.next, .next]).rewind.collect 4).map
+      (fun x => (x.1.map String.fromUTF8!, x.2.map (fun p => showRes (valueAt (hrun exS exHist) db' p)))))
+    == [(some "a1", some "=1"), (some "a2", some "=2"), (some "b1", some "=3"), (some "c1", some "=4")]
+  | _, _ => false)
+
 /-! ### the hypotheses are met by that instance (proof level) -/
 
 theorem inv_put {s : St} (h : ∃ db g, s.db = some db ∧ Inv s db g) (k v : ByteArray)
@@ -329,5 +393,69 @@ example : ∃ db, exS.db = some db ∧ ∀ (pre : Key) (rev : Bool) (typ : Index
   exact (C10_engine_cursor db pre rev hinv.sorted (callsOf exEvs)
     (admissible_of_seeksAtStart _ _ true (fun _ => rfl) (by decide))).2 (fun _ => 0) 1 typ
       (fun _ _ => Nat.zero_lt_one)
+
+/-- `C10_snapshot_transcript_sharded` applied to the example (4 shards by last byte) -/
+example : ∃ db, exS.db = some db ∧ ((∀ x ∈ db.index, C10.exShard x.1 < 4) → ∀ (typ : IndexType) (pre : Key) (rev : Bool),
+    transcriptD exS (DBIter.new typ rev pre (shardsOf C10.exShard 4 db.index)) exEvs
+      = specTranscript (Abs.new rev pre (fold exS db)) exEvs) := by
+  obtain ⟨db, g, hdb, hinv⟩ := exS_inv
+  refine ⟨db, hdb, fun hshard typ pre rev => ?_⟩
+  exact C10_snapshot_transcript_sharded exS db g hdb hinv C10.exShard 4 typ hshard pre rev exEvs
+    (admissible_of_seeksAtStart _ _ true (fun _ => rfl) (by decide))
+#guard (match exS.db with | some db => db.index.all (fun x => C10.exShard x.1 < 4) | none => false)
+
+/-- `C10_engine_complete_sorted` applied to the example -/
+example : ∃ db db', exS.db = some db ∧ (hrun exS exHist).db = some db' ∧ (db.index.length ≤ 4 →
+    (((iterNew db (kb "") false).run [.next, .next]).rewind.collect 4).map
+        (fun x => (x.1, x.2.map (valueAt (hrun exS exHist) db')))
+      = ((iterOrder false (fold exS db)).filter (fun x => ShardIter.hasPrefix (kb "") x.1)).map
+          (fun x => (some x.1, some x.2))) := by
+  obtain ⟨db, g, hdb, hinv⟩ := exS_inv
+  by_cases hl : db.index.length ≤ 4
+  · obtain ⟨db', h1, h2, _⟩ := C10_engine_complete_sorted exS db g hdb hinv (kb "") false [.next, .next]
+      (admissible_of_seeksAtStart _ _ true (fun _ => rfl) (by decide)) 4
+      (Nat.le_trans (List.length_filter_le _ _) (by rw [iterOrder_length]; exact hl)) exHist
+    exact ⟨db, db', hdb, h1, fun _ => h2⟩
+  · obtain ⟨db', h1, _⟩ := C10_stable exS db g hdb hinv exHist
+    exact ⟨db, db', hdb, h1, fun h => absurd h hl⟩
+#guard (match exS.db with | some db => db.index.length ≤ 4 | none => false)
+
+/-! ## 4. why the call sequences are restricted to admissible ones — and a model/Go difference
+
+`Engine.Iter.seek` recomputes the target from the whole snapshot, so outside the admissible class it
+still behaves like the abstract cursor on *backward* seeks, whereas the Go sharded iterator (as
+modelled by `DBIter`, reproduced on the Go `ShardedIndex`, see `C10.lean`) re-seeks only the cursors
+still in its heap and lands elsewhere.  The engine model therefore agrees with the Go iterator on
+admissible sequences only (the class C10 claims); the keys `a … f` of `C10.bwIdx` on the real
+`xxhash & 3` shards show the difference.  On an exhausted iterator both ignore `Seek`, and there
+the abstract cursor is the one that differs. -/
+
+def bwDB : DB :=
+  { (default : DB) with index := C10.bwIdx.map (fun x => (x.1, (⟨0, 0, x.2, 1⟩ : Pos))) }
+
+def keysOf (l : List (Obs Pos)) : List (Option Key) := l.map (·.key)
+
+example :
+    (Abs.new false ByteArray.empty bwDB.index).admissible [.next, .next, .seek (C10.k [97])] = false ∧
+    keysOf ((iterNew bwDB ByteArray.empty false).trace [.next, .next, .seek (C10.k [97])])
+      = [some (C10.k [97]), some (C10.k [98]), some (C10.k [99]), some (C10.k [97])] ∧
+    keysOf ((Abs.new false ByteArray.empty bwDB.index).trace [.next, .next, .seek (C10.k [97])])
+      = [some (C10.k [97]), some (C10.k [98]), some (C10.k [99]), some (C10.k [97])] ∧
+    keysOf ((DBIter.new .btree false ByteArray.empty (shardsOf C10.bwShard 4 bwDB.index)).trace
+        [.next, .next, .seek (C10.k [97])])
+      = [some (C10.k [97]), some (C10.k [98]), some (C10.k [99]), some (C10.k [99])] := by
+  decide
+
+/-- `Seek` on an exhausted iterator: engine model and sharded iterator ignore it, `Abs` does not -/
+example :
+    (Abs.new false ByteArray.empty bwDB.index).admissible [.seek (C10.k [103]), .seek (C10.k [98])] = false ∧
+    keysOf ((iterNew bwDB ByteArray.empty false).trace [.seek (C10.k [103]), .seek (C10.k [98])])
+      = [some (C10.k [97]), none, none] ∧
+    keysOf ((DBIter.new .hashmap false ByteArray.empty (shardsOf C10.bwShard 4 bwDB.index)).trace
+        [.seek (C10.k [103]), .seek (C10.k [98])])
+      = [some (C10.k [97]), none, none] ∧
+    keysOf ((Abs.new false ByteArray.empty bwDB.index).trace [.seek (C10.k [103]), .seek (C10.k [98])])
+      = [some (C10.k [97]), none, some (C10.k [98])] := by
+  decide
 
 end XixiKV.C10E
